@@ -16,6 +16,7 @@ RULE = ("history checker: a random history of 3-12 non-mutating API operations (
         "consensuses; non-trivial = histories with >= 3 operations of >= 2 kinds; distinct = digest of (dataset, scheme, history)")
 ASSUMPTIONS = ["snapshots read public accessors only", "KwikSort is repeatable only under the same RNG seed (re-seeded per op)"]
 SUMMARY_KEYS = ["histories", "ops", "snapshots_compared", "algorithm_runs_on_used_objects", "repeat_checks"]
+THOROUGH_SCALE = 4
 CRASH_IS_VIOLATION = False
 TIMEOUT = {"quick": 900, "thorough": 5400}
 ALG_OPS = ["Borda", "BordaBucket", "Copeland", "KwikSort", "PickAPerm", "BioConsert", "BioCo", "BioConsert[Borda]",
